@@ -10,7 +10,7 @@ import Upnp.Lemmas.C01Dict
 import Upnp.Lemmas.C01Lru
 import Upnp.Gen.C01Ssdp
 namespace Upnp.C01
-open Upnp CIDict
+open Upnp CIDict PyDict
 
 /-! ### the generated tables are the ones the model is about -/
 
@@ -202,6 +202,117 @@ theorem adjust_same_unless_v6 (u : Bytes) (a : Addr) (p : UrlParts) (hp : urlPar
   | adjusted u' =>
     obtain ⟨_, p', hp', hk'⟩ := adjusted_only_v6_link_local u u' a ho
     rw [hp] at hp'; cases hp'; exact absurd hk' hk
+
+/-! ### what holds of EVERY datagram, and the literal reading of "the same values" -/
+
+theorem decode_ok {data : Bytes} {loc : Option Addr} {src : Addr} {now : Int} {rl : Bytes} {h : Hdrs}
+    (hd : decode data loc src now = .ok (rl, h)) :
+    ∃ pairs udn, h = combineLower (headersOf pairs udn (withoutPort src)) (callMeta now loc src) := by
+  unfold decode decodeCore at hd
+  cases hp : headerParse data with
+  | error e => rw [hp] at hd; cases hd
+  | ok r =>
+    obtain ⟨pairs, rl', udn⟩ := r
+    rw [hp] at hd
+    simp only [Except.ok.injEq, Prod.mk.injEq] at hd
+    exact ⟨pairs, udn, hd.2.symm⟩
+
+/-- **sender metadata, for ALL datagrams**: whatever bytes were decoded — built by the library or not,
+    carrying headers named `_host`, `_PORT`, `_Remote_Addr` in any spelling or not — the decoded map
+    reads, under any spelling of these three names, the host string, the port and the address tuple
+    of the datagram's SOURCE.  (This is why a header map that sends a metadata name cannot come back
+    "the same": the second half of the property's sentence wins, for every datagram.  It was false of
+    the code before the repair of F01a.)  It is the theorem behind the judge clause `sourceMetaOk`. -/
+theorem source_meta_any (data : Bytes) (loc : Option Addr) (src : Addr) (now : Int) (rl : Bytes) (h : Hdrs)
+    (hd : decode data loc src now = .ok (rl, h)) :
+    (∀ k, lower k = kHost → getitem lower h k = some (.str (hostString src)))
+    ∧ (∀ k, lower k = kPort → getitem lower h k = some (.int src.port))
+    ∧ (∀ k, lower k = kRemote → getitem lower h k = some (.addr src)) := by
+  obtain ⟨pairs, udn, rfl⟩ := decode_ok hd
+  obtain ⟨a, b, c, d, _, _, _, _, _, _, _, _, _, _, _, _, t1, t2, t3⟩ := meta_ne
+  refine ⟨?_, ?_, ?_⟩
+  · intro k hk
+    rw [headers_get, hk, callMeta_get?_none _ _ _ _ ⟨a, b, c, d⟩, extras_eq]
+    simp [get?]; rfl
+  · intro k hk
+    rw [headers_get, hk]
+    simp [callMeta, get?, t2, t3]
+  · intro k hk
+    rw [headers_get, hk]
+    simp [callMeta, get?, t1]
+
+/-- a header value containing NUL is refused by the header parser (`InvalidHeader`, RFC 9110 §5.5): the
+    reason `validValue` excludes NUL — the text's "values without CR/LF" is false of such a value -/
+theorem parseLine_nul (k v : Bytes) (hk : isToken k = true) (hkl : k.length ≤ maxField) (hvl : v.length ≤ maxField)
+    (h1 : v.head? ≠ some SP) (h2 : v.head? ≠ some HT) (h3 : v.getLast? ≠ some SP) (h4 : v.getLast? ≠ some HT)
+    (h0 : 0 ∈ v) : parseLine (hdrLine [COLON] (k, v)) = .error .invalidHeader := by
+  obtain ⟨hne, hall⟩ := isToken_spec hk
+  have hcolon : COLON ∉ k := fun e => (isTchar_ne (List.all_eq_true.mp hall _ e)).1 rfl
+  have hsplit : splitFirst COLON (k ++ ([COLON] ++ v)) = some (k, v) := by
+    simpa using splitFirst_append COLON k v hcolon
+  have hhead : ¬ (k.head? = some SP ∨ k.head? = some HT ∨ k.getLast? = some SP ∨ k.getLast? = some HT) := by
+    intro e
+    rcases e with e | e | e | e
+    · exact (isTchar_ne (all_head? hall e)).2.1 rfl
+    · exact (isTchar_ne (all_head? hall e)).2.2.1 rfl
+    · exact (isTchar_ne (all_getLast? hall e)).2.1 rfl
+    · exact (isTchar_ne (all_getLast? hall e)).2.2.1 rfl
+  have hempty : k.isEmpty = false := by simpa using hne
+  have hnl : ¬ k.length > maxField := by omega
+  have hvl' : ¬ v.length > maxField := by omega
+  unfold parseLine hdrLine
+  simp only [hsplit, hempty, hhead, lstripSPHT_id v h1 h2, rstripSPHT_id v h3 h4, hnl, hvl', hk]
+  simp [h0]
+
+/-- **"the same header values", literally, for every sender that is not a scoped IPv6 address**
+    (IPv4, unscoped IPv6): EVERY sent header — `location` included — looked up by any spelling has
+    exactly the sent value -/
+theorem decode_build_unscoped (sep : Bytes) (hsep : SepOk sep) (sl : Bytes) (hsl : sl ∈ Gen.C01Ssdp.ssdpPrefixes)
+    (hs : List (Bytes × Bytes)) (hwf : wfHeaders Gen.C01Ssdp.metaKeys hs = true)
+    (loc : Option Addr) (src : Addr) (now : Int) (hsrc : ¬ (src.v6 = true ∧ src.scope ≠ 0)) :
+    ∃ h, decode (build sep sl hs) loc src now = .ok (sl, h)
+      ∧ ∀ p ∈ hs, ∀ k, lower k = lower p.1 → getitem lower h k = some (.str p.2) := by
+  obtain ⟨h, hd, hrt⟩ := decode_build sep hsep sl hsl hs hwf loc src now
+  refine ⟨h, hd, ?_⟩
+  intro p hp k hk
+  by_cases hl : lower p.1 = kLocation
+  · by_cases hw : allPyWs p.2 = true
+    · exact hrt.locBlank p hp hl hw k (hk.trans hl)
+    · have := (hrt.locAdjusted p hp hl (by simpa using hw)).1 k (hk.trans hl)
+      rw [this]
+      unfold adjVal
+      rw [adjust_identity p.2 src hsrc]
+  · exact hrt.sent p hp hl k hk
+
+/-- … and for a scoped IPv6 sender the ONLY header whose value may differ from the sent one is
+    `location`, and only when the URL's host is an IPv6 link-local literal; the sent text is then kept
+    under `_location_original` -/
+theorem decode_build_location_differs (sep : Bytes) (hsep : SepOk sep) (sl : Bytes) (hsl : sl ∈ Gen.C01Ssdp.ssdpPrefixes)
+    (hs : List (Bytes × Bytes)) (hwf : wfHeaders Gen.C01Ssdp.metaKeys hs = true)
+    (loc : Option Addr) (src : Addr) (now : Int) :
+    ∃ h, decode (build sep sl hs) loc src now = .ok (sl, h)
+      ∧ ∀ p ∈ hs, ∀ k, lower k = lower p.1 → ∀ u', getitem lower h k = some (.str u') → u' ≠ p.2 →
+          lower p.1 = kLocation ∧ (src.v6 = true ∧ src.scope ≠ 0)
+          ∧ (∃ parts, urlParts p.2 = .ok parts ∧ ipKind parts.host = .v6LinkLocal)
+          ∧ getitem lower h kLocOrig = some (.str p.2) := by
+  obtain ⟨h, hd, hrt⟩ := decode_build sep hsep sl hsl hs hwf loc src now
+  refine ⟨h, hd, ?_⟩
+  intro p hp k hk u' hu hne
+  by_cases hl : lower p.1 = kLocation
+  · by_cases hw : allPyWs p.2 = true
+    · rw [hrt.locBlank p hp hl hw k (hk.trans hl)] at hu
+      simp only [Option.some.injEq, Val.str.injEq] at hu; exact absurd hu.symm hne
+    · obtain ⟨ha, ho⟩ := hrt.locAdjusted p hp hl (by simpa using hw)
+      rw [ha k (hk.trans hl)] at hu
+      unfold adjVal adjustUrl at hu
+      cases hout : urlOutcome p.2 src with
+      | same w => rw [hout] at hu; simp only [Option.some.injEq, Val.str.injEq] at hu; exact absurd hu.symm hne
+      | unmodelled => rw [hout] at hu; simp at hu
+      | adjusted v =>
+        obtain ⟨hsc, parts, hparts, hkind⟩ := adjusted_only_v6_link_local p.2 v src hout
+        exact ⟨hl, hsc, ⟨parts, hparts, hkind⟩, ho kLocOrig (by decide)⟩
+  · rw [hrt.sent p hp hl k hk] at hu
+    simp only [Option.some.injEq, Val.str.injEq] at hu; exact absurd hu.symm hne
 
 /-! ### the run-time judge is the theorem's reading -/
 
